@@ -11,6 +11,8 @@ def ev(event):
     if event is None:
         return None
     uid = event.data.get('uid') if hasattr(event, 'data') else None
+    if type(event).__name__ == 'DelayedEvent':
+        return (event.name, uid, event.delay)       # the deprecated class: its delay is an attribute the code may read
     if hasattr(event, 'data') and 'items' in event.data:
         return (event.name, uid, len(event.data['items']))      # a mutable payload: what it holds when the code looks at it
     return (event.name, uid)
@@ -21,6 +23,9 @@ class Box:
 
     def __init__(self, n=0):
         self.n = n
+
+    def __repr__(self):
+        return 'Box(n=%d)' % self.n
 
 
 class Probe:
@@ -77,14 +82,16 @@ class Probe:
         else:
             send(name, uid=self.uid, tag='t%d' % self.uid, delay=delay)
 
-    def sendw(self, send, name, delay, items):
-        """an event that carries a mutable object of the context (the list w itself, not a copy)"""
+    def sendw(self, send, name, delay, items, handle=None):
+        """an event that carries mutable objects of the context (the list w itself, not a copy; the box, an object without
+        value equality)"""
         self.uid += 1
         self.log.append(('send', self.uid, name, delay))
+        kw = {} if handle is None else {'handle': handle}
         if delay is None:
-            send(name, uid=self.uid, tag='t%d' % self.uid, items=items)
+            send(name, uid=self.uid, tag='t%d' % self.uid, items=items, **kw)
         else:
-            send(name, uid=self.uid, tag='t%d' % self.uid, delay=delay, items=items)
+            send(name, uid=self.uid, tag='t%d' % self.uid, delay=delay, items=items, **kw)
 
     def anon(self, send, name, delay):
         """an event without any distinguishing parameter: two of them compare equal"""
